@@ -285,9 +285,49 @@ class ApiRuntime:
         self.pv = poison_value(env)
         self.nfreq_computed = set()
         self.order = []          # sequence of FAR/NEAR kinds executed
+        self.held = []           # result objects the caller kept, with by-value snapshots
         self.angles = {}         # caller-owned Angle objects reused between requests
         self.nearargs = {}       # caller-owned near-field argument containers
         self.seen_points = {}
+
+    # -- results handed out earlier must stay what they were ---------------
+    def _snap(self, obj):
+        a = np.array(obj)
+        return (a.dtype.str, a.shape, a.tobytes())
+
+    def hold(self, name, obj):
+        self.held.append((name, obj, self._snap(obj), self.st.point()))
+        if len(self.held) > 16:
+            del self.held[0]
+
+    def hold_results(self, kind):
+        m = self.m
+        if kind == 'COMPUTE':
+            for n in ('current', 'Z', 'rhs'):
+                self.hold(n, getattr(m, n))
+        elif kind == 'FAR':
+            ff = m.far_field
+            for n in ('gain', 'e_theta', 'e_phi', 'azi', 'zen'):
+                self.hold('far_field.' + n, getattr(ff, n))
+        elif kind == 'NEAR':
+            self.hold('e_field', m.e_field)
+            self.hold('h_field', m.h_field)
+            self.hold('near_field_coord', m.near_field_coord)
+
+    def check_held(self):
+        bad = []
+        keep = []
+        for name, obj, snap, point in self.held:
+            try:
+                now = self._snap(obj)
+            except Exception as e:
+                now = ('exc', type(e).__name__)
+            if now != snap:
+                bad.append((name, point))
+            else:
+                keep.append((name, obj, snap, point))
+        self.held = keep
+        return bad
 
     def ensure(self):
         if self.m is None and self.dead is None:
@@ -617,6 +657,12 @@ def run_history(plan, start=0, disk_files=None, positions=None, apistates=None):
             if rt.m is not None:
                 before = abstract_state(rt.m, rt.st)
             executed, sec, info = rt.run_op(op)
+            if executed and rt.m is not None and rt.dead is None:
+                changed = rt.check_held()
+                if changed:
+                    rec['held_changed'] = changed
+                if kind in ('COMPUTE', 'FAR', 'NEAR'):
+                    rt.hold_results(kind)
             if not executed and info.get('dead') and info['dead'][0] == 'BUILD' \
                     and not getattr(rt, 'dead_reported', False):
                 sec = {'dead': list(info['dead'])}
